@@ -9,8 +9,10 @@ package control
 // Op grammar: see lean/DaeVerif/C13/Main.lean (handleTrk / handleDrn / handleKey).
 
 import (
+	"context"
 	"encoding/hex"
 	"fmt"
+	"io"
 	"math/big"
 	"net/netip"
 	"sort"
@@ -18,6 +20,10 @@ import (
 	"sync/atomic"
 	"testing"
 	"testing/synctest"
+	"unsafe"
+
+	"github.com/cilium/ebpf"
+	"github.com/sirupsen/logrus"
 )
 
 // ---------------------------------------------------------------- tracker
@@ -275,6 +281,178 @@ func c13Contains(l []int, x int) bool {
 		}
 	}
 	return false
+}
+
+// ---------------------------------------------------------------- kernel conn-state map
+//
+// Stream c13_krn: the REAL controlPlaneCore.RetainUdpConnStateTuples / ReleaseUdpConnStateTuples /
+// TransferRetainedUdpConnStateTuplesFrom on cores that own a REAL eBPF hash map as ConnStateMap
+// (ebpf.NewMap works in this sandbox; the build is the real-bpf variant, so BpfMapBatchDelete is the
+// production function).  `flow` = the datapath created the tuple's entry and an endpoint tracks it.
+// Digest: both trackers and the keys present in both maps.  `shared` = both generations hold the same
+// bpf objects, hence (through the registry) the same tracker and map, as after an ordinary reload.
+
+func c13NewConnStateMap() *ebpf.Map {
+	m, err := ebpf.NewMap(&ebpf.MapSpec{Type: ebpf.Hash, KeySize: uint32(unsafe.Sizeof(bpfTuplesKey{})), ValueSize: 8, MaxEntries: 64})
+	if err != nil {
+		return nil
+	}
+	return m
+}
+
+func c13KernelKeys(m *ebpf.Map, idx map[bpfTuplesKey]int) []int {
+	var out []int
+	var k bpfTuplesKey
+	var v uint64
+	it := m.Iterate()
+	for it.Next(&k, &v) {
+		out = append(out, idx[k])
+	}
+	sort.Ints(out)
+	return out
+}
+
+func c13KrnCore(bpf *bpfObjects) *controlPlaneCore {
+	log := logrus.New()
+	log.SetOutput(io.Discard)
+	core := &controlPlaneCore{log: log, outboundId2Name: map[uint8]string{}}
+	core.closed, core.close = context.WithCancel(context.Background())
+	core.bpf.Store(bpf)
+	return core
+}
+
+func c13RunKrn(t *testing.T, stats *VStats) {
+	probe := c13NewConnStateMap()
+	if probe == nil {
+		stats.Inc("krn.unavailable")
+		return
+	}
+	probe.Close()
+	s := VOpenStream("c13_krn")
+	defer s.Close()
+	r := NewVRand(VSeed() + 606)
+	const nkeys = 6
+	keys := make([]bpfTuplesKey, nkeys)
+	idx := map[bpfTuplesKey]int{}
+	for i := range keys {
+		keys[i] = c13TupleKey(i)
+		idx[keys[i]] = i
+	}
+	nseq := 150
+	if VThorough() {
+		nseq = 3000
+	}
+	for seq := 0; seq < nseq; seq++ {
+		shared := r.Chance(0.4)
+		maps := []*ebpf.Map{c13NewConnStateMap(), nil}
+		bpfs := []*bpfObjects{{bpfMaps: bpfMaps{ConnStateMap: maps[0]}}, nil}
+		if shared {
+			maps[1], bpfs[1] = maps[0], bpfs[0]
+		} else {
+			maps[1] = c13NewConnStateMap()
+			bpfs[1] = &bpfObjects{bpfMaps: bpfMaps{ConnStateMap: maps[1]}}
+		}
+		cores := []*controlPlaneCore{c13KrnCore(bpfs[0]), c13KrnCore(bpfs[1])}
+		own := []map[int]int{{}, {}} // harness-side count of holders per core (to generate disciplined releases)
+		if shared {
+			own[1] = own[0]
+		}
+		digest := func() string {
+			part := func(c int) string {
+				x := &c13Trk{t: cores[c].getUdpConnStateTracker()}
+				return fmt.Sprintf("t%d[%s] k%d=%s", c, x.digest(idx), c, c13JoinInts(c13KernelKeys(maps[c], idx)))
+			}
+			return part(0) + " " + part(1)
+		}
+		mode := "distinct"
+		if shared {
+			mode = "shared"
+			stats.Inc("krn.seq.shared")
+		} else {
+			stats.Inc("krn.seq.distinct")
+		}
+		s.Emit("krn reset "+mode, "ok")
+		nops := 5 + r.Intn(30)
+		for i := 0; i < nops; i++ {
+			c := r.Intn(2)
+			switch x := r.Intn(10); {
+			case x < 3:
+				k := r.Intn(nkeys)
+				if err := maps[c].Put(keys[k], uint64(1)); err != nil {
+					t.Fatalf("c13: map put: %v", err)
+				}
+				cores[c].RetainUdpConnStateTuples([]bpfTuplesKey{keys[k]})
+				own[c][k]++
+				stats.Inc("krn.flow")
+				s.Emit(fmt.Sprintf("krn flow %d %d", c, k), digest())
+			case x < 5:
+				k := r.Intn(nkeys)
+				cores[c].RetainUdpConnStateTuples([]bpfTuplesKey{keys[k]})
+				own[c][k]++
+				stats.Inc("krn.retain")
+				s.Emit(fmt.Sprintf("krn retain %d %d", c, k), digest())
+			case x < 9:
+				var ks []int
+				for k := 0; k < nkeys; k++ {
+					if own[c][k] > 0 && r.Chance(0.5) {
+						ks = append(ks, k)
+					}
+				}
+				if len(ks) == 0 {
+					continue
+				}
+				kk := make([]bpfTuplesKey, len(ks))
+				last := false
+				for j, k := range ks {
+					kk[j] = keys[k]
+					if own[c][k] == 1 {
+						last = true
+					}
+					own[c][k]--
+				}
+				if err := cores[c].ReleaseUdpConnStateTuples(kk); err != nil {
+					t.Fatalf("c13: ReleaseUdpConnStateTuples: %v", err)
+				}
+				if last {
+					stats.Inc("krn.release.lastOwner")
+				} else {
+					stats.Inc("krn.release.sharedTupleSurvives")
+				}
+				s.Emit(fmt.Sprintf("krn release %d %s", c, c13JoinInts(ks)), digest())
+			default:
+				var ks []int
+				for k := 0; k < nkeys; k++ {
+					if own[1-c][k] > 0 && r.Chance(0.5) {
+						ks = append(ks, k)
+					}
+				}
+				if len(ks) == 0 {
+					continue
+				}
+				kk := make([]bpfTuplesKey, len(ks))
+				for j, k := range ks {
+					kk[j] = keys[k]
+				}
+				cores[c].TransferRetainedUdpConnStateTuplesFrom(cores[1-c], kk)
+				if !shared {
+					for _, k := range ks {
+						own[c][k]++
+						own[1-c][k]--
+					}
+				}
+				stats.Inc("krn.transfer." + mode)
+				s.Emit(fmt.Sprintf("krn transfer %d %d %s", c, 1-c, c13JoinInts(ks)), digest())
+			}
+		}
+		for _, c := range cores {
+			_ = c.Close()
+		}
+		maps[0].Close()
+		if !shared {
+			maps[1].Close()
+		}
+	}
+	stats.Add("krn.ops", s.N)
 }
 
 // ---------------------------------------------------------------- drain tickets
